@@ -14,6 +14,8 @@ func init() {
 	vfHarnesses["C11_range_search_5"] = vfhC11RangeSearch5
 	vfHarnesses["C11_stop_two_level"] = vfhC11StopTwoLevel
 	vfHarnesses["C11_priority_search"] = vfhC11PrioritySearch
+	vfHarnesses["C11_priority_order"] = vfhC11PriorityOrder
+	vfHarnesses["C11_priority_order_5"] = vfhC11PriorityOrder5
 	vfHarnesses["C11_bulk_shape"] = vfhC11BulkShape
 }
 
@@ -268,5 +270,60 @@ func vfhC11PrioritySearch() {
 	}
 	_, found := t.Nearest(q)
 	vfAssert(found == (n > 0), "Nearest reports an empty tree")
+	vfReach("end")
+}
+
+func vfGap(lo1, hi1, lo2, hi2 float64) float64 {
+	// distance between the closed intervals [lo1,hi1] and [lo2,hi2]
+	if hi1 < lo2 {
+		return lo2 - hi1
+	}
+	if hi2 < lo1 {
+		return lo1 - hi2
+	}
+	return 0
+}
+
+// vfSqDist: the exact squared Euclidean distance between two boxes.
+func vfSqDist(a, b Box) float64 {
+	dx := vfGap(a.MinX, a.MaxX, b.MinX, b.MaxX)
+	dy := vfGap(a.MinY, a.MaxY, b.MinY, b.MaxY)
+	return dx*dx + dy*dy
+}
+
+// C11: PrioritySearch visits every record exactly once in non-decreasing
+// order of box-to-box distance; Nearest returns a record at minimum distance.
+func vfhC11PriorityOrder()  { vfPriorityOrder(vfInt("n", 1, 4)) }
+func vfhC11PriorityOrder5() { vfPriorityOrder(5) }
+
+func vfPriorityOrder(n int) {
+	items := make([]BulkItem, n)
+	boxes := make([]Box, n)
+	for i := range items {
+		boxes[i] = vfBoxL("b")
+		items[i] = BulkItem{Box: boxes[i], RecordID: i}
+	}
+	q := vfBoxL("q")
+	t := BulkLoad(items)
+	seen := make([]int, n)
+	last := float64(-1)
+	ordered := true
+	_ = t.PrioritySearch(q, func(id int) error {
+		seen[id]++
+		d := vfSqDist(boxes[id], q)
+		ordered = vfAnd(ordered, last <= d)
+		last = d
+		return nil
+	})
+	vfAssert(ordered, "records are visited in non-decreasing order of distance")
+	for i := range seen {
+		vfAssert(seen[i] == 1, "every record exactly once")
+	}
+	id, found := t.Nearest(q)
+	vfAssert(found, "Nearest finds a record")
+	dn := vfSqDist(boxes[id], q)
+	for i := range boxes {
+		vfAssert(dn <= vfSqDist(boxes[i], q), "Nearest is at the minimum distance")
+	}
 	vfReach("end")
 }
